@@ -5,7 +5,8 @@
        calls _MIR_restore_func_insns, and prints the function in the model's vocabulary before,
        in between and after, plus the script in the model's edit language:
          P init=<F> dup=<F> script=<edits> work=<F> final=<F> readd=<ok|FAIL>
-         F = insns/origs/vars/ovn/lrefs ; insn = id.L.payload.r,r ; lref = lab,lab2,orig,orig2
+         F = insns/origs/vars/ovn/lrefs/gvars/regtab ; insn = id.L.payload.r,r ; lref = lab,lab2,orig,orig2 ;
+             regtab = name.number,... (as MIR_reg / MIR_reg_name answer for every var and global var)
    G <file> | <op> ; <op> ...
        end-to-end: load m,m | link iface | opt n | gen f | call f sig args | icall f sig args | snap
        Every answer token is self-describing; `snap` compares every loaded function with the baseline
@@ -112,6 +113,44 @@ static void print_insn_list (MIR_func_t func, MIR_insn_t head, int assign) {
       }
   }
 }
+static jmp_buf err_jmp;
+static int err_armed;
+static uint32_t name_hash (const char *nm) { return (uint32_t) (text_hash (nm, strlen (nm)) & 0xffffffffull); }
+/* the register tables as the API shows them: (name, number) of every variable and hard-register-tied
+   global of the function that is declared, by number; `!` marks an entry whose number does not lead
+   back to the name */
+static void print_regtab (MIR_func_t func) {
+  struct { uint32_t h; long reg; int back; } e[512];
+  int n = 0;
+  for (int pass = 0; pass < 2; pass++) {
+    VARR (MIR_var_t) *vs = pass == 0 ? func->vars : func->global_vars;
+    if (vs == NULL) continue;
+    for (size_t i = 0; i < VARR_LENGTH (MIR_var_t, vs) && n < 512; i++) {
+      const char *nm = VARR_GET (MIR_var_t, vs, i).name;
+      volatile long reg = -1;
+      volatile int back = 0;
+      err_armed = 1;
+      if (setjmp (err_jmp) == 0) {
+        reg = (long) MIR_reg (ctx, nm, func);
+        const char *nm2 = MIR_reg_name (ctx, (MIR_reg_t) reg, func);
+        back = nm2 != NULL && strcmp (nm2, nm) == 0;
+      }
+      err_armed = 0;
+      if (reg < 0) continue; /* not declared (any more) */
+      e[n].h = name_hash (nm);
+      e[n].reg = reg;
+      e[n].back = back;
+      n++;
+    }
+  }
+  for (int i = 1; i < n; i++) /* by register number */
+    for (int j = i; j > 0 && e[j - 1].reg > e[j].reg; j--) {
+      __typeof__ (e[0]) t = e[j];
+      e[j] = e[j - 1];
+      e[j - 1] = t;
+    }
+  for (int i = 0; i < n; i++) printf ("%s%x.%ld%s", i ? "," : "", e[i].h, e[i].reg, e[i].back ? "" : "!");
+}
 static void print_func (MIR_func_t func, int assign) {
   print_insn_list (func, DLIST_HEAD (MIR_insn_t, func->insns), assign);
   printf ("/");
@@ -128,6 +167,12 @@ static void print_func (MIR_func_t func, int assign) {
             l->orig_label ? id_of (l->orig_label) : -1, l->orig_label2 ? id_of (l->orig_label2) : -1);
     first = 0;
   }
+  printf ("/");
+  if (func->global_vars != NULL)
+    for (size_t i = 0; i < VARR_LENGTH (MIR_var_t, func->global_vars); i++)
+      printf ("%s%x", i ? "," : "", name_hash (VARR_GET (MIR_var_t, func->global_vars, i).name));
+  printf ("/");
+  print_regtab (func);
 }
 static MIR_insn_t nth_insn (MIR_func_t func, int n) {
   MIR_insn_t i = DLIST_HEAD (MIR_insn_t, func->insns);
@@ -161,8 +206,6 @@ static void print_refs (MIR_insn_t i) {
     }
 }
 
-static jmp_buf err_jmp;
-static int err_armed;
 static void MIR_NO_RETURN p_err_func (MIR_error_type_t t, const char *fmt, ...) {
   if (err_armed) longjmp (err_jmp, 1);
   va_list ap;
